@@ -374,7 +374,61 @@ def run(tables_path, budget_s=600, lengths=None, verbose=True, known_keys=None):
     return out
 
 
+def run_c12(tables_path, budget_s=300, verbose=True):
+    """C12 for ONC-RPC: whatever the real matcher hands to the RPC responders is a CALL - the
+    message-type word (bytes 4..7 of a datagram call, 8..11 behind a record mark) is zero - so a
+    reply-typed ONC-RPC message (message type 1) is never answered by the RPC responder.  No
+    class is excluded here."""
+    import z3
+    tb = load_tables(tables_path)
+    t0 = time.time()
+    enc = Encoding(tb)
+    out = {"encode_s": round(time.time() - t0, 2), "queries": [], "violations": [], "inconclusive": [], "witness": None}
+    nz = lambda lo: z3.Or([enc.d[j] != 0 for j in range(lo, lo + 4)])
+    for mode, real in (("stream", enc.stream_id), ("datagram", enc.dgram_id)):
+        for k in range(0, N + 1):
+            s = enc.solver()
+            s.set("timeout", int(budget_s * 1000 / 4))
+            bad = []
+            if k >= 8:
+                bad.append(z3.And(real[k] == PROTO_RPC_UDP, nz(4)))
+            if k >= 12:
+                bad.append(z3.And(real[k] == PROTO_RPC_TCP, nz(8)))
+            if k < 8:
+                bad.append(z3.Or(real[k] == PROTO_RPC_UDP, real[k] == PROTO_RPC_TCP))
+            elif k < 12:
+                bad.append(real[k] == PROTO_RPC_TCP)
+            s.add(z3.Or(bad))
+            t1 = time.time()
+            r = s.check()
+            q = {"mode": mode, "length": k, "result": str(r), "solver_s": round(time.time() - t1, 2)}
+            if r == z3.sat:
+                m = s.model()
+                q["witness"] = enc.model_bytes(m, k).hex()
+                q["real"] = m.eval(real[k], model_completion=True).as_long()
+                out["violations"].append(q)
+            elif r != z3.unsat:
+                out["inconclusive"].append(q)
+            out["queries"].append(q)
+            if time.time() - t0 > budget_s:
+                out["inconclusive"].append({"reason": "budget exhausted", "at": [mode, k]})
+                return out
+    # vacuity: some payload IS handed to each RPC responder
+    for idd, name in ((PROTO_RPC_UDP, "rpc:udp"), (PROTO_RPC_TCP, "rpc:tcp")):
+        s = enc.solver()
+        s.add(enc.dgram_id[N] == idd)
+        r = s.check()
+        out["queries"].append({"mode": "witness", "length": N, "result": str(r), "what": name})
+        if r != z3.sat:
+            out["inconclusive"].append({"reason": "no payload reaches %s: vacuous" % name})
+    out["total_s"] = round(time.time() - t0, 1)
+    return out
+
+
 if __name__ == "__main__":
+    if len(sys.argv) > 3 and sys.argv[3] == "c12":
+        print(json.dumps(run_c12(sys.argv[1], budget_s=float(sys.argv[2])), indent=1))
+        sys.exit(0)
     kk = None
     if len(sys.argv) > 4:
         kk = set(x for x in sys.argv[4].split(",") if x)
